@@ -496,6 +496,27 @@ func (cs *Contracts) parseFile(path, src string) error {
 			cur.NoStores = append(cur.NoStores, strings.Fields(rest)...)
 		case "full-loop":
 			cur.FullLoops = append(cur.FullLoops, rest)
+		case "confine":
+			// confine <param> [to <callee> ...]
+			f := strings.Fields(rest)
+			if len(f) < 1 || (len(f) > 1 && f[1] != "to") {
+				return fmt.Errorf("%s:%d: confine <param> [to <callee> ...]", path, ln)
+			}
+			cf := &Confine{Param: f[0]}
+			if len(f) > 2 {
+				cf.To = f[2:]
+			}
+			cur.Confines = append(cur.Confines, cf)
+		case "on-slice":
+			f := strings.Fields(rest)
+			if len(f) < 2 {
+				return fmt.Errorf("%s:%d: on-slice <param> [label:] <expr over $lo / $hi>", path, ln)
+			}
+			cl, err := parseClause(strings.TrimSpace(rest[len(f[0]):]))
+			if err != nil {
+				return fmt.Errorf("%s:%d: %v", path, ln, err)
+			}
+			cur.OnSlices = append(cur.OnSlices, &OnStore{Field: f[0], Label: cl.Label, Expr: cl.Expr, Text: cl.Text})
 		case "on-call":
 			f := strings.Fields(rest)
 			if len(f) < 2 {
